@@ -16,12 +16,15 @@ def one(meta_path):
         if p.returncode != 0:
             return sid, "PATCH-DOES-NOT-APPLY", []
         res = []
-        for prop in d["caught_by"]:
-            env = dict(os.environ, JASM_REPO=S, JV_EVIDENCE_DIR=S + "/.ev", JV_REPLAY_DIR=S + "/.rp")
-            c = subprocess.run(["./check", prop, "--tier", "quick"], cwd="/verif", env=env, capture_output=True, text=True)
-            res.append((prop, {0: "MISSED", 1: "caught", 3: "inconclusive"}.get(c.returncode, f"rc{c.returncode}")))
-        ok = any(v == "caught" for _, v in res)
-        return sid, "ok" if ok else "NOT-CAUGHT", res
+        seeds = os.environ.get("SEEDS", "0 5 11").split()
+        for n, prop in enumerate(d["caught_by"]):
+            for seed in (seeds if n == 0 else seeds[:1]):      # the first listed check must catch it at every seed
+                env = dict(os.environ, JASM_REPO=S, JV_EVIDENCE_DIR=S + "/.ev", JV_REPLAY_DIR=S + "/.rp", VERIF_SEED=seed)
+                c = subprocess.run(["./check", prop, "--tier", "quick"], cwd="/verif", env=env, capture_output=True, text=True)
+                res.append((f"{prop}@{seed}", {0: "MISSED", 1: "caught", 3: "inconclusive"}.get(c.returncode, f"rc{c.returncode}")))
+        first = [v for p, v in res if p.startswith(d["caught_by"][0] + "@")]
+        ok = all(v == "caught" for v in first)
+        return sid, "ok" if ok else ("FLAKY" if any(v == "caught" for _, v in res) else "NOT-CAUGHT"), res
     finally:
         shutil.rmtree(S, ignore_errors=True)
 
